@@ -491,12 +491,16 @@ func flattenHeap(h *Heap, base *Heap) map[int]Value {
 // execution) are parked at the blocking point; afterwards execution continues from the merge of the normally
 // returned state and all parked states. Returns the condition "f returned normally".
 func (ex *Exec) runUntilBlocked(st *State, f Value, site ssa.Instruction) *Term {
+	return ex.runUntilBlockedArgs(st, f, nil, site)
+}
+
+func (ex *Exec) runUntilBlockedArgs(st *State, f Value, fargs []Value, site ssa.Instruction) *Term {
 	parent := st.heap
 	base := newHeap(parent)
 	st.heap = base
 	ctx := &rubCtx{base: base, n0: len(st.pcs)}
 	ex.rub = append(ex.rub, ctx)
-	ex.invokeFuncValue(st, f, nil, site)
+	ex.invokeFuncValue(st, f, fargs, site)
 	ex.rub = ex.rub[:len(ex.rub)-1]
 	type part struct {
 		g    *Term
